@@ -37,6 +37,9 @@ inline std::string linBand(double m) {
   return "lin~1e9";
 }
 
+// violation keys use the label without its linear-magnitude band (one defect = one key, not six)
+inline std::string dropLin(const std::string& l) { size_t p = l.rfind('/'); return p == std::string::npos ? l : l.substr(0, p); }
+
 struct GenOpt {
   double thetaMax = 3.14159265358979323846 - 1e-6;  // largest rotation angle generated
   bool beyondPi = false;                              // allow (pi, 4pi) (tangents fed to exp only)
